@@ -146,10 +146,21 @@ def run(w: World, rep: Report):
             return isinstance(e, ast.Name) and e.id in names
 
         per_fn_idx = {}
+        extra_sites = []
         for n in cfg.nodes:
-            for ev in node_events(n):
+            for ev in list(node_events(n)) + [('extra',)]:
                 site = None
-                if ev[0] in ('store', 'del') and isinstance(ev[1], ast.Subscript) and is_cache(ev[1].value):
+                if ev[0] == 'extra':
+                    if not extra_sites:
+                        continue
+                    how0, k0, n0 = extra_sites.pop()
+                    if n0 is not n:
+                        extra_sites.append((how0, k0, n0))
+                        continue
+                    site = (how0, k0)
+                if site is not None:
+                    pass
+                elif ev[0] in ('store', 'del') and isinstance(ev[1], ast.Subscript) and is_cache(ev[1].value):
                     site = (ev[0], ev[1].slice)
                 elif ev[0] == 'aug' and isinstance(ev[1].target, ast.Subscript) and is_cache(ev[1].target.value):
                     site = ('aug', ev[1].target.slice)
@@ -158,7 +169,13 @@ def run(w: World, rep: Report):
                 elif ev[0] == 'call' and isinstance(ev[1].func, ast.Attribute) and is_cache(ev[1].func.value) \
                         and ev[1].func.attr in MUTATORS:
                     c = ev[1]
-                    if c.func.attr in ('clear', 'popitem', 'update'):
+                    if c.func.attr == 'update' and len(c.args) == 1 and isinstance(c.args[0], ast.Dict) and \
+                            c.args[0].keys and all(k is not None for k in c.args[0].keys) and not c.keywords:
+                        # update({k1: .., k2: ..}): one store per literal key
+                        for kx in c.args[0].keys[1:]:
+                            extra_sites.append(('update', kx, n))
+                        site = ('update', c.args[0].keys[0])
+                    elif c.func.attr in ('clear', 'popitem', 'update'):
                         site = ('whole', None)
                     else:
                         site = (c.func.attr, c.args[0] if c.args else None)
